@@ -74,10 +74,33 @@ def compare_value(path, raw, val, problems):
             problems.append(("value_not_preserved", f"{fmt(path)}: {raw!r} became {val!r}"))
 
 
+SNAKE = {"on": True}
+
+
+def expected_python_name(key):
+    """Reference image of a response key as Python attribute name under the configuration of the case."""
+    import keyword
+    import pydantic
+    from ariadne_codegen.utils import str_to_snake_case
+    if key == "__typename":
+        return "typename__"
+    n = str_to_snake_case(key) if SNAKE["on"] else key
+    if keyword.iskeyword(n):
+        n += "_"
+    if n in {a for a in dir(pydantic.BaseModel) if not a.startswith("_")}:
+        n += "_"
+    n = n.lstrip("_")
+    if not n and set(key) == {"_"}:
+        return "underscore_named_field_"
+    return n
+
+
 def compare_object(path, raw, obj, problems):
     cls = type(obj)
     for key, r in raw.items():
         name = field_for_key(cls, key)
+        if name is not None and name != expected_python_name(key):
+            problems.append(("python_name", f"{fmt(path + (key,))}: exposed as {name!r}, expected {expected_python_name(key)!r} (convert_to_snake_case={SNAKE['on']})"))
         if name is None:
             problems.append(("key_not_exposed", f"{fmt(path + (key,))}: response key has no field on {cls.__name__}"))
             continue
@@ -275,6 +298,10 @@ def evaluate_op(case):
     schema = get_schema(schema_text)
     options = case.get("options") or {}
     checks = set(case.get("checks") or ["c01"])
+    SNAKE["on"] = options.get("convert_to_snake_case", True)
+    if case.get("configured_scalars"):
+        from . import strict as _strict
+        _strict.CONFIGURED.update({k: (int, "Int") for k, v in case["configured_scalars"].items() if v == "int"})
     out = {"status": "ok", "runs": 0, "problems": [], "responses": 0, "capped": False, "outcomes": set()}
     problems = out["problems"]
     if case.get("validate", True):
@@ -305,7 +332,7 @@ def evaluate_op(case):
         client_name = options.get("client_name", "Client")
         Client = getattr(mod, client_name)
         mname = find_method(Client, case["op_name"])
-        assignments = [{"v": True}, {"v": False}] if case.get("uses_var") else [{}]
+        assignments = case.get("kwargs_list") or ([{"v": True}, {"v": False}] if case.get("uses_var") else [{}])
         first = True
         ann_seen = set()
         for kwargs in assignments:
@@ -330,7 +357,7 @@ def evaluate_op(case):
                 captured["n"] = captured.get("n", 0) + 1
                 try:
                     res, doc = refexec.execute(schema, body["query"], body.get("variables") or {}, state["choose"],
-                                               operation_name=body.get("operationName"))
+                                               operation_name=body.get("operationName"), scalar_values=case.get("scalar_values"))
                 except Exception as e:  # noqa
                     captured["handler_error"] = f"{type(e).__name__}: {e}"
                     return httpx.Response(200, json={"data": None, "errors": [{"message": "handler: " + str(e)}]})
@@ -465,8 +492,73 @@ def capture_requests(case):
         Client = getattr(mod, options.get("client_name", "Client"))
         if "operations" in mods:
             out["operations_constants"] = {k: v for k, v in vars(mods["operations"]).items() if k.isupper() and isinstance(v, str)}
+        import asyncio
+
+        class _FakeWS:
+            """Scripted connection: ack, then complete; records what the client sends."""
+            def __init__(self):
+                self.sent, self.frames, self.closed = [], ['{"type": "connection_ack"}', '{"type": "complete", "id": "x"}'], False
+
+            async def send(self, m):
+                self.sent.append(m)
+
+            async def recv(self):
+                return self.frames.pop(0)
+
+            def __aiter__(self):
+                return self
+
+            async def __anext__(self):
+                if self.closed or not self.frames:
+                    raise StopAsyncIteration
+                return self.frames.pop(0)
+
+            async def close(self, *a, **k):
+                self.closed = True
+
         for op in case["ops"]:
             captured = {}
+            if op.get("subscription"):
+                if not is_async:
+                    continue
+                ws = _FakeWS()
+
+                class _CM:
+                    async def __aenter__(self_):
+                        return ws
+
+                    async def __aexit__(self_, *e):
+                        return False
+                base_mod = mods.get("async_base_client") or mods.get("async_base_client_open_telemetry")
+                old = base_mod.ws_connect
+                base_mod.ws_connect = lambda *a, **k: _CM()
+                try:
+                    c = Client(ws_url="ws://verif.invalid")
+
+                    async def drain():
+                        async for _ in getattr(c, find_method(Client, op["name"]))(**(op.get("kwargs") or {})):
+                            pass
+                    try:
+                        asyncio.run(drain())
+                    except Exception as e:  # noqa
+                        captured["exc"] = f"{type(e).__name__}: {e}"
+                finally:
+                    base_mod.ws_connect = old
+                subs = [json.loads(m) for m in ws.sent if '"subscribe"' in m]
+                if len(subs) != 1:
+                    out["problems"].append((op["name"], "request_count", f"{len(subs)} subscribe frames; {captured.get('exc')}"))
+                    continue
+                body = dict(subs[0].get("payload") or {})
+                body.setdefault("variables", {})
+                out["ops"][op["name"]] = {"query": body.get("query"), "variables": body.get("variables")}
+                p2 = []
+                try:
+                    check_c02(schema, case["doc_text"], op["name"], body, p2)
+                except Exception:  # noqa
+                    import traceback
+                    p2.append(("harness_error", traceback.format_exc()[-800:]))
+                out["problems"].extend((op["name"], c_, d_) for c_, d_ in p2)
+                continue
 
             def handler(request):
                 captured["body"] = json.loads(request.content)
